@@ -77,7 +77,8 @@ def register_tls(R):
     R.module("easynetwork/lowlevel/api_async/transports/tls.py")
     R.inline_fn("_IncomingDataReader.close", "_IncomingDataReader.__post_init__")
     R.shape("_IncomingDataReader", cls="_IncomingDataReader",
-            fields={"transport": "AsyncStreamTransport", "max_size": "int", "buffer": "opt[bytearray]", "buffer_view": "viewof:buffer"})
+            fields={"transport": "AsyncStreamTransport", "max_size": "int", "buffer": "opt[bytearray]", "buffer_view": "viewof:buffer"},
+            invariant=[("view-is-the-whole-non-empty-buffer", "not isnone(self.buffer) and view_lo(self.buffer_view) == 0 and view_hi(self.buffer_view) == len(self.buffer) and len(self.buffer) >= 1")])
     R.shape(
         "AsyncTLSStreamTransport", cls="AsyncTLSStreamTransport",
         fields={"_transport": "AsyncStreamTransport", "_standard_compatible": "bool", "_shutdown_timeout": "xreal", "_ssl_object": "SSLObjectModel",
